@@ -111,7 +111,15 @@ void op_DECL(World& w, const Op& op)
    switch (kind) {
    case 0: {
       // Region/Udt::declare_alias take a Type ("const ipr::Type& t") and forward it as the initializer
-      impl::Alias* d = sc->make_alias(*name, *alias_init);
+      impl::Alias* d = nullptr;
+      // when the initializer is itself a type, the convenience routes are available as well
+      const Type* as_type = dynamic_cast<const Type*>(alias_init);
+      if (as_type && udt_call([&](auto* u) { d = u->declare_alias(*name, *as_type); })) factory = "Udt::declare_alias";
+      else if (as_type && route == 1 && rg) {
+         d = rg->declare_alias(*name, *as_type);
+         factory = "Region::declare_alias";
+      }
+      else d = sc->make_alias(*name, *alias_init);
       impl_ptr = d;
       decl = d;
       sh = stmt_handle(d);
